@@ -140,6 +140,7 @@ def run(ctx):
     # requirements the library asks for): quick = a sample of the alterations, thorough = 400 per signing mode
     real_ntlm(ctx)
     stripped_handshakes(ctx)
+    fragments(ctx)
 
 
 def pick(alts, k):
@@ -206,6 +207,39 @@ def stripped_handshakes(ctx):
                                       {"provider_script": [(hx(t), d) for t, d in sc], "server_script": list(acks) + ["cleartext response"], "async": use_async, "scenario": "stripped_handshakes"},
                                       hx(got["stub"])[:60], "error")
                         return
+
+
+
+def fragments(ctx):
+    """replies in several PDUs: an authentic sealed response whose flags do not say "last fragment", followed by PDUs from a party WITHOUT
+    the session key (cleartext responses carrying a stub of its choice, with / without fragment flags, same call id).  Whatever the client
+    makes of fragment flags, no octet of the unauthenticated PDUs may reach the caller."""
+    from dpapi_ng import _rpc as r
+    from dpapi_ng._rpc import _request
+    evil = b"KEY MATERIAL CHOSEN BY THE ADVERSARY"
+
+    def clear(flags, stub=evil):
+        return rpcfmt.finalize(_request.Response(header=r.PDUHeader(5, 0, r.PacketType.RESPONSE, r.PacketFlags(flags), r.DataRep(), 0, 0, 1), sec_trailer=None,
+                                                 alloc_hint=len(stub), context_id=0, cancel_count=0, stub_data=stub))
+    genuine = bytes(range(48))
+    for header_len in (16, 28):
+        for sign in (False, True):
+            for first_flags in (1, 0):                       # PFC_FIRST_FRAG only / no fragment flags at all
+                for tail in ([clear(2)], [clear(0), clear(2)], [clear(3)], [clear(2, evil + bytes(12))],
+                             ["sealed-mid", clear(2)]):
+                    for use_async in (False, True):
+                        first, _ = rpcsim.sealed_response(genuine, header_len, sign, flags=first_flags)
+                        seq = [first]
+                        for t in tail:
+                            seq.append(rpcsim.sealed_response(genuine[:16], header_len, sign, flags=0)[0] if t == "sealed-mid" else t)
+                        wire = b"".join(seq)
+                        out, resp, auth = do_request(wire, header_len, sign, use_async)
+                        ctx.count("fragmented_reply:" + ("returned" if resp is not None else "error"))
+                        if resp is not None and evil in bytes(resp.stub_data):
+                            ctx.violation("octets of an unauthenticated continuation PDU are returned on an authenticated connection",
+                                          {"scenario": "fragments", "wire": hx(wire), "header_len": header_len, "sign": sign, "async": use_async,
+                                           "first_fragment_flags": first_flags, "following_pdus": len(tail)}, hx(bytes(resp.stub_data))[:120], "only octets the security context unwrapped (or an error)")
+                            return
 
 
 def real_ntlm(ctx):
@@ -282,6 +316,10 @@ def replay(ctx, payload):
         for x in c2.violations[:3]:
             print(" ", x["what"], x["input"], x["observed"][:60])
         return not c2.violations
+    if v.get("scenario") == "fragments":
+        out, resp, auth = do_request(bytes.fromhex(v["wire"]), v["header_len"], v["sign"], v["async"])
+        print("request() →", out[:200])
+        return resp is None or b"KEY MATERIAL CHOSEN BY THE ADVERSARY" not in bytes(resp.stub_data)
     if "wire" not in v:          # found with the real NTLM context (stateful sealing: the whole run is repeated)
         c2 = type(ctx)(ctx.prop, "quick", ctx.seed)
         real_ntlm(c2)
